@@ -76,6 +76,23 @@ class Gen:
         return dict(dflt=rng.random() < 0.2, ports=ports)
 
 
+def lengthen(tb, pre):
+    """prefix every port name of the table (recursively) with the literal `pre`: names on both sides of the 15/16-character small-string boundary"""
+    for p in tb["ports"]:
+        segs = p["pat"]["segs"]
+        if segs and segs[0]["k"] == "lit":
+            segs[0]["s"] = [ord(c) for c in pre] + segs[0]["s"]
+        else:
+            segs.insert(0, lit(pre))
+        p["name"] = [ord(c) for c in render(p["pat"])]
+        if not p["leaf"]:
+            lengthen(p["sub"], pre)
+    return tb
+
+
+LONG_PREFIXES = ["volume_envelope", "a_rather_long_port_", "lfo.frequency.modulation.depth.of.voice."]   # 15, 19, 40 characters
+
+
 def expand(segs):
     outs = [""]
     for g in segs:
